@@ -9,10 +9,11 @@ VERIF = build.VERIF
 
 class Config:
     def __init__(self, name, harness, args, max_paths=32, tol=fpsym.TOL, timeout=120, maxsteps=None, solver_timeout_ms=20000,
-                 defines='', expect_nonvacuous=True, note='', strategy='global'):
+                 defines='', expect_nonvacuous=True, note='', strategy='global', validate=True, time_budget_s=None):
         self.name, self.harness, self.args = name, harness, [str(a) for a in args]
         self.max_paths, self.tol, self.timeout, self.maxsteps, self.solver_timeout_ms = max_paths, tol, timeout, maxsteps, solver_timeout_ms
-        self.defines, self.expect_nonvacuous, self.note, self.strategy = defines, expect_nonvacuous, note, strategy
+        self.defines, self.expect_nonvacuous, self.note, self.strategy, self.validate = defines, expect_nonvacuous, note, strategy, validate
+        self.time_budget_s = time_budget_s
 
 
 def concrete_obl_fails(o, tol):
@@ -51,7 +52,7 @@ def run_config(prop, cfg, tier, seed):
         res['inconclusive'].append({'what': 'build failed', 'detail': str(e)[-3000:]}); res['wall'] = time.time() - t0; return res
     work = os.path.join(build.BUILD, 'work', prop, re.sub(r'[^\w.-]', '_', cfg.name))
     shutil.rmtree(work, ignore_errors=True); os.makedirs(work)
-    ex = fpsym.Explorer(exe, plain, cfg.args, work, cfg.max_paths, cfg.tol, cfg.timeout, cfg.maxsteps, cfg.solver_timeout_ms, seed, cfg.strategy)
+    ex = fpsym.Explorer(exe, plain, cfg.args, work, cfg.max_paths, cfg.tol, cfg.timeout, cfg.maxsteps, cfg.solver_timeout_ms, seed, cfg.strategy, cfg.time_budget_s if cfg.time_budget_s else (90 if tier == 'quick' else 600))
     first = {'done': False}
 
     def handle(rec, info, dec, k, inputs):
@@ -98,6 +99,8 @@ def run_config(prop, cfg, tier, seed):
                 res['problems'].append({'kind': 'obl', 'label': o[6], 'occ': occ, 'okind': d['kind'], 'inputs': d.get('inputs', rec.inputs()), 'path': k, 'method': d['method']})
             else:
                 res['inconclusive'].append({'what': 'solver', 'label': o[6], 'method': d.get('method'), 'path': k})
+        if not first['done'] and not cfg.validate:
+            first['done'] = True; res['translator_validated'] = None
         if not first['done']:
             first['done'] = True
             # translator validation: plain build on the same inputs must publish bit-identical concrete values
@@ -111,7 +114,7 @@ def run_config(prop, cfg, tier, seed):
         ex.run(handle)
     except Exception as e:
         res['inconclusive'].append({'what': 'driver exception', 'detail': traceback.format_exc()[-2000:]})
-    res['coverage_complete'] = ex.coverage_complete; res['bands'] = ex.bands; res['cover_unknown'] = ex.cover_unknown; res['infeasible_branches'] = ex.infeasible; res['diverged'] = ex.diverged
+    res['coverage_complete'] = ex.coverage_complete; res['bands'] = ex.bands; res['cover_unknown'] = ex.cover_unknown; res['infeasible_branches'] = ex.infeasible; res['diverged'] = ex.diverged; res['time_budget_hit'] = ex.budget_hit
     res['stats'] = ex.stats
     # replay of every problem on the plain (un-instrumented) build
     for p in res['problems']:
